@@ -22,17 +22,20 @@ def _callee(e):
 def tracked_vars(func, summaries):
     """ids of variables that receive a blob somewhere in func"""
     out = {}
+    pending_copies = []
     for n in walk(func.body):
         k = n.get("k")
         lhs = rhs = None
         if k == "Bin" and n["op"] == "=":
             lhs, rhs = strip(n["x"]), n["y"]
         elif k == "Decl" and n.get("init") is not None:
-            lhs, rhs = {"k": "Ref", "id": n["id"], "n": n["n"], "rk": "local"}, n["init"]
+            lhs, rhs = {"k": "Ref", "id": n["id"], "n": n["n"], "rk": "local", "t": n.get("t")}, n["init"]
         if lhs is not None and lhs.get("k") == "Ref":
             c = _callee(rhs)
             if c in CREATE or c in ("blobResize", "blobCopy"):
                 out[lhs["id"]] = (lhs["n"], lhs.get("rk", "local"))
+        if lhs is not None and lhs.get("k") == "Ref" and rhs is not None:
+            pending_copies.append((lhs, strip(rhs)))
         if k == "Call":
             s = summaries.get("creator", {}).get(n.get("callee"))
             if s is not None and s < len(n["a"]):
@@ -40,6 +43,15 @@ def tracked_vars(func, summaries):
                 if a.get("k") == "Un" and a["op"] == "&" and strip(a["e"]).get("k") == "Ref":
                     r = strip(a["e"])
                     out[r["id"]] = (r["n"], r.get("rk", "local"))
+    # blob_t-typed variables that take over a blob from another tracked variable (v = t)
+    changed = True
+    while changed:
+        changed = False
+        for lhs, rhs in pending_copies:
+            if lhs["id"] not in out and rhs.get("k") == "Ref" and rhs["id"] in out and \
+                    (lhs.get("t") or "").replace("const ", "") == "blob_t":
+                out[lhs["id"]] = (lhs["n"], lhs.get("rk", "local"))
+                changed = True
     return out
 
 
@@ -72,10 +84,10 @@ class BlobClient(ir.Client):
     def _mk(b, d):
         return (tuple(sorted(b.items(), key=lambda x: x[0])), tuple(sorted(d.items())))
 
-    def _v(self, rule, node, construct, detail, st=None):
+    def _v(self, rule, node, construct, detail, st=None, rc=None):
         key = (rule, construct, node.line)
         if key not in self.viol:
-            self.viol[key] = dict(rule=rule, line=node.line, construct=construct, detail=detail, node=node, st=st)
+            self.viol[key] = dict(rule=rule, line=node.line, construct=construct, detail=detail, node=node, st=st, rc=rc)
 
     def _resolve(self, b, env):
         for v, s in list(b.items()):
@@ -140,7 +152,18 @@ class BlobClient(ir.Client):
             return None
         if r["id"] in b or r["id"] in self.tracked:
             return r["id"]
-        return d.get(r["id"])
+        v = d.get(r["id"])
+        return v[0] if v else None
+
+    def _exact(self, e, d):
+        """is e (after casts) the blob base itself or an exact alias of it?"""
+        e = strip(e)
+        if e.get("k") != "Ref":
+            return False
+        if e["id"] in self.tracked:
+            return True
+        v = d.get(e["id"])
+        return bool(v and v[1])
 
     # ---- transfer
     def eval(self, e, st, env, node):
@@ -158,17 +181,17 @@ class BlobClient(ir.Client):
                         self._v("use-after-close", node, "%s after blobClose" % r["n"],
                                 "%s is passed to %s after it was closed" % (r["n"], ctx[4:]))
                     continue
-                if s == "U" or (isinstance(s, tuple) and s[0] == "RU"):
+                if s == "U" or (isinstance(s, tuple) and s[0] in ("RU", "RS")):
                     self._v("unchecked-use", node, "%s used before null test" % r["n"],
                             "allocation result %s is used in `%s` before it is compared with 0" % (r["n"], show(e)[:70]))
-                elif s == "C":
+                elif s in ("C", "M"):
                     self._v("use-after-close", node, "%s after blobClose" % r["n"],
-                            "%s is used in `%s` after blobClose" % (r["n"], show(e)[:70]))
+                            "%s is used in `%s` after %s" % (r["n"], show(e)[:70], "blobClose" if s == "C" else "its block was moved by blobResize"))
                 elif s == "NF":
                     self._v("null-use", node, "%s used on the allocation-failure path" % r["n"],
                             "%s is null here (allocation failed) and used in `%s`" % (r["n"], show(e)[:70]))
             elif vid in d and ctx != "assigned":
-                root = d[vid]
+                root = d[vid][0]
                 if b.get(root) == "C":
                     self._v("use-after-close", node, "%s (derived from %s) after blobClose" % (r["n"], self.tracked[root][0]),
                             "%s points into %s, which was closed, and is used in `%s`" % (r["n"], self.tracked[root][0], show(e)[:70]))
@@ -202,6 +225,10 @@ class BlobClient(ir.Client):
                         if arg0.get("k") == "Ref" and arg0["id"] == vid:
                             old = b.get(vid, "N0")
                             b[vid] = ("RU",) if old in ("L", "U") else "U"
+                        elif arg0.get("k") == "Ref" and arg0["id"] in self.tracked and \
+                                self.tracked[arg0["id"]][1] != "global":
+                            # t = blobResize(v, ..): on success the block of v has moved into t
+                            b[vid] = ("RS", arg0["id"])
                         else:
                             b[vid] = "U"
                     elif is_int(rhs, 0):
@@ -212,9 +239,18 @@ class BlobClient(ir.Client):
                         b[vid] = "N0"
                     else:
                         rb = self._root_blob(rhs, b, d)
-                        if rb is not None and rb != vid:
+                        if rb is not None and rb != vid and strip(rhs).get("k") == "Ref" and rb in self.tracked and \
+                                strip(rhs)["id"] == rb:
+                            # v = t : ownership moves from t to v
+                            oldv = b.get(vid)
+                            if oldv in ("L", "U") and self.tracked[vid][1] != "global":
+                                self._v("leak", node, "%s overwritten while live" % lhs["n"],
+                                        "%s still owns a block when it is assigned %s" % (lhs["n"], show(rhs)[:30]))
+                            b[vid] = b.get(rb, "N0")
+                            b[rb] = "M"
+                        elif rb is not None and rb != vid:
                             # ownership moves to vid's name: treat as alias of root
-                            d[vid] = rb
+                            d[vid] = (rb, self._exact(rhs, d))
                         elif rb is None:
                             old = b.get(vid)
                             if old in ("L", "U") and self.tracked[vid][1] != "global":
@@ -226,7 +262,7 @@ class BlobClient(ir.Client):
                 else:
                     rb = self._root_blob(rhs, b, d) if rhs.get("k") != "Call" else None
                     if rb is not None and lhs.get("rk") in ("local", "param"):
-                        d[vid] = rb
+                        d[vid] = (rb, self._exact(rhs, d))
                     elif rb is not None and lhs.get("rk") in ("global", "static_local"):
                         b[rb] = "E"
                     else:
@@ -253,9 +289,20 @@ class BlobClient(ir.Client):
                     r = strip(e["a"][idx])
                     rb = None
                     if r.get("k") == "Ref":
-                        rb = r["id"] if r["id"] in self.tracked else d.get(r["id"])
-                        if rb is None and r["id"] in d:
-                            rb = d[r["id"]]
+                        if r["id"] in self.tracked:
+                            rb = r["id"]
+                        elif r["id"] in d:
+                            rb = d[r["id"]][0]
+                            if not d[r["id"]][1]:
+                                self._v("interior-close", node, "%s(%s): interior pointer of %s" % (c, r["n"], self.tracked[rb][0]),
+                                        "%s points into the blob %s at a non-zero offset; %s reads the size header in front of "
+                                        "its argument, so this frees/wipes the wrong address" % (r["n"], self.tracked[rb][0], c))
+                    elif r.get("k") != "Int":
+                        rb0 = self._root_blob(r, b, d)
+                        if rb0 is not None:
+                            rb = rb0
+                            self._v("interior-close", node, "%s(%s): interior pointer of %s" % (c, show(r)[:30], self.tracked[rb][0]),
+                                    "the argument is an offset into the blob %s, not its base" % self.tracked[rb][0])
                     if rb is not None:
                         if b.get(rb) == "C":
                             self._v("double-close", node, "%s closed twice" % self.tracked[rb][0],
@@ -328,7 +375,9 @@ class BlobClient(ir.Client):
                         b[root] = "NF"
                     elif s == "U":
                         b[root] = "NF"
-                    elif s in ("C", "E"):
+                    elif isinstance(s, tuple) and s[0] == "RS":
+                        b[root] = "NF"
+                    elif s in ("C", "E", "M"):
                         pass
                     else:
                         b[root] = s if s in ("N0", "NF") else "N0"
@@ -337,6 +386,10 @@ class BlobClient(ir.Client):
                         return None
                     if s == "U" or (isinstance(s, tuple) and s[0] in ("RU",)):
                         b[root] = "L"
+                    elif isinstance(s, tuple) and s[0] == "RS":
+                        b[root] = "L"
+                        if b.get(s[1]) in ("L", "U"):
+                            b[s[1]] = "M"
         b = self._resolve(b, ir.refine(c, pol, env))
         return self._mk(b, d)
 
@@ -365,11 +418,11 @@ class BlobClient(ir.Client):
                     self._v("oom-reported-as-success", node, "%s allocation failed" % name,
                             "return reports success although the allocation of %s failed" % name)
                 continue
-            if s in ("L", "U") or (isinstance(s, tuple) and s[0] in ("RU", "PEND")):
+            if s in ("L", "U") or (isinstance(s, tuple) and s[0] in ("RU", "PEND", "RS")):
                 if v == self.param_live:
                     continue
                 self._v("leak", node, "%s not closed" % name,
-                        "return at line %d with %s still allocated (not passed to blobClose on this path)" % (node.line, name), st=(st, env))
+                        "return at line %d with %s still allocated (not passed to blobClose on this path)" % (node.line, name), st=(st, env), rc=rc)
             elif isinstance(s, tuple) and s[0] == "IF":
                 self._v("leak", node, "%s not closed" % name,
                         "return at line %d: %s may be allocated (creator result not tested)" % (node.line, name), st=(st, env))
